@@ -34,7 +34,7 @@ def depth(tier):
 
 
 def bound(tier):
-    return dict(depth=depth(tier), core_alphabet_depth=depth(tier) + 1, models=2, files=2, metadata_objects=["None", "{}", "{'a':1,'n':{'log':view,'l':[view]}} (views of a larger buffer)", "{'nested':{'x':[1,2.5,'s']}}", "{'t':tensor}"][:3 if tier == "quick" else 5],
+    return dict(depth=depth(tier), core_alphabet_depth=depth(tier) + 1, models=2, files=2, metadata_objects=["None", "{}", "{'a':1,'n':{'log':view,'l':[view]},'shape':(2,(3,'a'))} (views of a larger buffer, nested tuple)", "{'nested':{'x':[1,2.5,'s'],'shape':tuple}}", "{'t':tensor}"][:3 if tier == "quick" else 5],
                 shapes=KINDS, operations="randomise(m), train(m0), add_unitary(m0), save(m,f,md), load(m,f), autoload(f), save with reserved key, ModelSaver.on_epoch_end")
 
 
@@ -99,7 +99,7 @@ def canon(x):
     if isinstance(x, dict):
         return ("D", tuple(sorted((str(k), canon(v)) for k, v in x.items())))
     if isinstance(x, (list, tuple)):
-        return ("L", tuple(canon(v) for v in x))
+        return ("L" if isinstance(x, list) else "Tu", tuple(canon(v) for v in x))   # a tuple stored must come back a tuple
     return ("V", repr(x))
 
 
@@ -134,16 +134,19 @@ def abs_file(path, networks):
         sd = torch.load(path)
     except Exception as e:  # noqa: BLE001  (e.g. a file object the harness opened and the library then refused to write)
         return ("unreadable", type(e).__name__, os.path.getsize(path))
-    nets = tuple((net, tuple((n, H(p)) for n, p in sd[net].items())) for net in networks if net in sd)
-    ud = tuple(sorted((k, H(v)) for k, v in sd["unitary_dict"].items())) if "unitary_dict" in sd else None
-    md = canon({k: v for k, v in sd.items() if k not in networks and k != "unitary_dict"})
+    try:
+        nets = tuple((net, tuple((n, H(p)) for n, p in sd[net].items())) for net in networks if net in sd)
+        ud = tuple(sorted((k, H(v)) for k, v in sd["unitary_dict"].items())) if "unitary_dict" in sd else None
+        md = canon({k: v for k, v in sd.items() if k not in networks and k != "unitary_dict"})
+    except Exception as e:  # noqa: BLE001  (a checkpoint whose network / dictionary entries are not what the library writes)
+        return ("malformed", type(e).__name__, sorted(map(str, sd.keys())) if isinstance(sd, dict) else repr(type(sd)))
     return (nets, ud, md)
 
 
 def MDS():
     # object 2 carries, besides a plain value, live VIEWS of a larger running-log buffer inside nested containers
     buf = torch.arange(6, dtype=torch.double)
-    return [None, {}, {"a": 1, "n": {"log": buf[:2], "l": [buf[1:4]]}}, {"nested": {"x": [1, 2.5, "s"]}}, {"t": torch.arange(3)}]
+    return [None, {}, {"a": 1, "n": {"log": buf[:2], "l": [buf[1:4]]}, "shape": (2, (3, "a"))}, {"nested": {"x": [1, 2.5, "s"], "shape": (2, (3, "a"))}}, {"t": torch.arange(3)}]
 
 
 def mk(kind, arch, custom=False):
@@ -282,14 +285,19 @@ class World:
             key = op[2]
             reserved = key in self.networks or (key == "unitary_dict" and has_ud(self.M[0]))
             if reserved:
-                try:
-                    self.M[0].save(self.F[0], {key: 1})
-                    out.append(("roundtrip:reserved-metadata-key-accepted", dict(key=key)))
-                    self.refF[0] = abs_file(self.F[0], self.networks)
-                except ValueError:
-                    pass
-                except Exception as e:  # noqa: BLE001
-                    out.append((f"roundtrip:reserved-key-raised-{type(e).__name__}", dict(key=key)))
+                # a reserved NAME is refused whatever value comes with it (truthy, falsy, alone or among other entries)
+                for vn, val in (("1", 1), ("None", None), ("0", 0), ("empty-str", ""), ("empty-dict", {}), ("empty-list", []), ("zero-tensor", torch.tensor(0.0)), ("with-others", 1)):
+                    md_ = {key: val} if vn != "with-others" else {"note": "x", key: val, "z": 2}
+                    try:
+                        self.M[0].save(self.F[0], md_)
+                        out.append(("roundtrip:reserved-metadata-key-accepted", dict(key=key, value=vn)))
+                        self.refF[0] = abs_file(self.F[0], self.networks)
+                        break
+                    except ValueError:
+                        pass
+                    except Exception as e:  # noqa: BLE001
+                        out.append((f"roundtrip:reserved-key-raised-{type(e).__name__}", dict(key=key, value=vn)))
+                        break
         else:
             raise EngineError(f"unknown op {op}")
         if check:
